@@ -174,6 +174,7 @@ def script_read(slot, g, strict):
 
 
 CFG_KEYS = ['la', 'debug', 'one', 'cost', 'rec', 'match']
+DEFAULT_CFG = {'la': 1, 'debug': 0, 'one': 1, 'cost': 0, 'rec': 1, 'match': 3}
 
 
 def script_cfg(slot, cfg):
@@ -191,7 +192,11 @@ def simple_case(cid, g, strict, cfg, toks, allocmode=0, free_tree=True, walk=Tru
     k = 0
     if v.get('pre') is not None:
         pt = v['pre']
+        pc = v.get('pre_cfg') or {}
+        # the earlier parse may run under other settings, which are set back afterwards
+        L += script_cfg(0, pc)
         L.append('PARSE 0 %d %d %s' % (allocmode, len(pt), ' '.join(str(c) for c in pt)))
+        L += script_cfg(0, {kk: cfg.get(kk, DEFAULT_CFG[kk]) for kk in pc})
         if free_tree:
             L.append('FREET 0 1')
         k = 1
@@ -230,6 +235,8 @@ def vary(key, g, toks, p_pad=0.2, p_pre=0.15):
         v['pad_before'], v['pad_after'] = extra[:nb], extra[nb:]
     elif x < p_pad + p_pre:
         v['pre'] = list(toks)
+        if r.random() < 0.6:
+            v['pre_cfg'] = {kk: r.choice(vals) for kk, vals in (('la', [0, 1, 2]), ('one', [0, 1]), ('cost', [0, 1]), ('rec', [0, 1])) if r.random() < 0.5}
     return v
 
 
